@@ -248,7 +248,7 @@ func TestC11(t *testing.T) {
 	})
 }
 
-const ruleC12 = "imports attempted on ledgers with generated prior states — pristine, already written to (single request, non-atomic bulk, atomic bulk), already imported into — with log streams whose first id is below / equal to / above the existing last log id; an import must be accepted only on a ledger that is still initializing and whose logs all precede the imported ones, and a rejected import must leave every table unchanged; non-trivial = import attempted after a write through a bulk, or a second import; distinct = by prior state + stream"
+const ruleC12 = "imports attempted on ledgers with generated prior states — pristine, already written to (single request, non-atomic bulk, atomic bulk, a write preceded by a dry run on the same controller chain), only dry-run, already imported into — with log streams whose first id is below / equal to / above the existing last log id; an import must be accepted only on a ledger that is still initializing and whose logs all precede the imported ones, and a rejected import must leave every table unchanged; non-trivial = import attempted after a write through a bulk, or a second import; distinct = by prior state + stream"
 
 func TestC12(t *testing.T) {
 	st := stats.New("C12", "exploration", ruleC12, assumePgsim, "sequential part: the Import / write race is exercised by the scheduler-driven check when present")
@@ -266,7 +266,7 @@ func TestC12(t *testing.T) {
 		}
 		logs := w.exportLogs(src)
 		dst := w.AddLedger("dst", "b2", fs)
-		prior := rapid.SampledFrom([]string{"pristine", "single-write", "bulk-write", "atomic-bulk-write", "imported-prefix", "failed-write-only"}).Draw(rt, "priorState")
+		prior := rapid.SampledFrom([]string{"pristine", "single-write", "bulk-write", "atomic-bulk-write", "imported-prefix", "failed-write-only", "dry-run-only", "dry-run-then-write", "dry-run-then-write"}).Draw(rt, "priorState")
 		ps := ledger.Postings{ledger.NewPosting("world", "a", "USD/2", big.NewInt(1))}
 		written := false
 		switch prior {
@@ -290,6 +290,17 @@ func TestC12(t *testing.T) {
 			dst.M = m
 		case "failed-write-only":
 			w.CreateTx(dst, TxRequest{Postings: ledger.Postings{ledger.NewPosting("a", "bank", "USD/2", big.NewInt(5))}})
+		case "dry-run-only", "dry-run-then-write":
+			// the first request the controller chain ever sees is a dry run: nothing is written, the ledger stays pristine
+			if out := w.CreateTx(dst, TxRequest{Postings: ps, DryRun: true}); out.Kind != ErrNone {
+				w.V("C12", "dry run on a pristine ledger failed: %v", out.Err)
+			}
+			if prior == "dry-run-then-write" {
+				if rapid.IntRange(0, 3).Draw(rt, "reopenBetween") == 0 {
+					w.Reopen(dst)
+				}
+				written = w.CreateTx(dst, TxRequest{Postings: ps}).Kind == ErrNone
+			}
 		}
 		// the second attempt: import a suffix of the stream. Only self-consistent streams are in the
 		// property's domain: the whole stream, or — after an imported prefix — a suffix starting at or
@@ -337,9 +348,106 @@ func TestC12(t *testing.T) {
 				w.Focus = map[string]bool{"C12": true}
 			}
 		}
-		st.Case(desc+strings.Join(src.Ops, "\n"), prior == "bulk-write" || prior == "atomic-bulk-write" || prior == "imported-prefix", func() any {
+		st.Case(desc+strings.Join(src.Ops, "\n"), prior == "bulk-write" || prior == "atomic-bulk-write" || prior == "imported-prefix" || prior == "dry-run-then-write", func() any {
 			return map[string]any{"case": desc, "accepted": err == nil}
 		}, "prior:"+prior, fmt.Sprintf("accepted:%v", err == nil))
+		st.Add("completed_checks", 1)
+	})
+}
+
+// ------------------------------------------------------- C14 through the import path
+
+const ruleC14Import = "a generated source history with references is exported; one later NEW_TRANSACTION log of the stream is given the reference of an earlier transaction (a stream no faithful export produces, but one the import endpoint can be sent); the stream is imported into a pristine ledger of another bucket, in one call or after its prefix. The import must stop at the offending log with an error, the ledger must equal the import of the logs before it (transactions, volumes, logs read back against the replay of that prefix), and it must never list two transactions with one reference; non-trivial = the duplicate lies after >= 2 importable logs; distinct = by stream"
+
+func TestC14Import(t *testing.T) {
+	st := stats.New("C14", "exploration", ruleC14Import, assumePgsim, "HASH_LOGS is disabled on both ledgers so that the edited log is not refused for its hash first")
+	defer st.Write(t)
+	n := stats.N(150, 400)
+	st.Set("requested_checks", n)
+	stats.Check(t, n, 1414, func(rt *rapid.T) {
+		w := NewWorld(rt, st, env.Options{}, "C14")
+		defer w.Close()
+		fs := GenFeatures(rt).With(features.FeatureHashLogs, "DISABLED")
+		src := w.AddLedger("src", "b1", fs)
+		// a source with several referenced transactions
+		nrefs := rapid.IntRange(2, 4).Draw(rt, "referenced")
+		for i := 0; i < nrefs; i++ {
+			r := w.GenPostingsRequest(rt, src, 2)
+			r.Force, r.DryRun, r.Reference = true, false, fmt.Sprintf("ref-%d", i)
+			if w.CreateTx(src, r).Kind != ErrNone {
+				rt.Skip("source write failed")
+			}
+			if rapid.IntRange(0, 2).Draw(rt, "interleave") == 0 {
+				w.SaveAccountMeta(src, "u:1", map[string]string{"k": fmt.Sprint(i)}, false)
+			}
+		}
+		logs := w.exportLogs(src)
+		// positions of NEW_TRANSACTION logs
+		var txLogs []int
+		for i, lg := range logs {
+			if _, ok := lg.Data.(ledger.CreatedTransaction); ok {
+				txLogs = append(txLogs, i)
+			}
+		}
+		if len(txLogs) < 2 {
+			rt.Skip("not enough transactions")
+		}
+		dupAt := txLogs[rapid.IntRange(1, len(txLogs)-1).Draw(rt, "duplicateAt")]
+		earlier := txLogs[rapid.IntRange(0, len(txLogs)-1).Draw(rt, "duplicateOf")]
+		if earlier >= dupAt {
+			earlier = txLogs[0]
+		}
+		ct := logs[dupAt].Data.(ledger.CreatedTransaction)
+		ct.Transaction.Reference = logs[earlier].Data.(ledger.CreatedTransaction).Transaction.Reference
+		logs[dupAt].Data = ct
+		dst := w.AddLedger("dst", "b2", fs)
+		split := rapid.IntRange(0, dupAt).Draw(rt, "importedFirst") // logs imported by a first, valid call
+		if split > 0 {
+			if err := w.importLogs(dst, logs[:split]); err != nil {
+				w.V("C14", "import of a valid prefix failed: %v", err)
+			}
+		}
+		err := w.importLogs(dst, logs[split:])
+		desc := fmt.Sprintf("stream of %d logs, log %d reuses the reference %q of log %d; first call imports %d logs", len(logs), *logs[dupAt].ID, ct.Transaction.Reference, *logs[earlier].ID, split)
+		if err == nil {
+			w.V("C14", "the import accepted a transaction reusing a reference of its ledger (%s)\nsource history:\n  %s", desc, src.History())
+		}
+		refs := map[string]int{}
+		for _, r := range w.Env.Sim.Rows("b2", "transactions") {
+			if r["ledger"].S == "dst" && !r["reference"].IsNull() && r["reference"].S != "" {
+				refs[r["reference"].S]++
+			}
+		}
+		for ref, k := range refs {
+			if k > 1 {
+				w.V("C14", "the ledger lists %d transactions with reference %q after the import (%s)", k, ref, desc)
+			}
+		}
+		// the ledger equals the import of the logs before the offending one
+		m, rerr := ReplayLogs(logs[:dupAt])
+		if rerr != nil {
+			w.harness("replay of the prefix failed: %v", rerr)
+		}
+		m.Logs = src.M.Logs[:dupAt]
+		dst.M = m
+		w.Reopen(dst)
+		keep := w.Focus
+		w.Focus = nil
+		code := func(f func()) {
+			defer func() {
+				if r := recover(); r != nil {
+					panic(r)
+				}
+			}()
+			f()
+		}
+		code(func() {
+			w.CheckLogs(dst, 15, paginate.OrderAsc)
+			w.CheckTransactions(dst, nil, 15, paginate.OrderAsc)
+			w.CheckVolumes(dst, nil, nil, false, 0, 15)
+		})
+		w.Focus = keep
+		st.Case(desc+src.History(), dupAt >= 2, func() any { return map[string]any{"case": desc, "error": fmt.Sprint(err)} })
 		st.Add("completed_checks", 1)
 	})
 }
